@@ -176,15 +176,42 @@ impl Report {
 /// Run `case(index, &mut Report)` for every index in 0..total on `threads` workers.
 /// `describe(index)` renders the input for hang reports. A case that runs longer than `hang_after`
 /// makes the whole run stop with `hang` set (the stuck thread cannot be killed; the caller exits).
+/// CPU time consumed so far by the thread with the given pthread id (0 if it cannot be read).
+fn thread_cpu_ns(pt: u64) -> u64 {
+    unsafe {
+        let mut clk: libc::clockid_t = 0;
+        if libc::pthread_getcpuclockid(pt as libc::pthread_t, &mut clk) != 0 {
+            return 0;
+        }
+        let mut ts: libc::timespec = std::mem::zeroed();
+        if libc::clock_gettime(clk, &mut ts) != 0 {
+            return 0;
+        }
+        ts.tv_sec as u64 * 1_000_000_000 + ts.tv_nsec as u64
+    }
+}
+
 pub fn run_space<F, D>(total: u64, threads: usize, hang_after: Duration, case: F, describe: D) -> Report
 where
     F: Fn(u64, &mut Report) + Sync,
     D: Fn(u64) -> String + Sync,
 {
+    run_space_chunked(total, threads, hang_after, 64, case, describe)
+}
+
+/// Like `run_space` with an explicit work-distribution granularity (1 for heavy, size-sorted cases).
+pub fn run_space_chunked<F, D>(total: u64, threads: usize, hang_after: Duration, chunk: u64, case: F, describe: D) -> Report
+where
+    F: Fn(u64, &mut Report) + Sync,
+    D: Fn(u64) -> String + Sync,
+{
     let next = AtomicU64::new(0);
-    let chunk: u64 = 64;
     let slots: Vec<(AtomicU64, Mutex<Option<Instant>>)> =
         (0..threads).map(|_| (AtomicU64::new(u64::MAX), Mutex::new(None))).collect();
+    // CPU-time watchdog: a case counts as hanging when its worker thread has burnt more than `hang_after` of CPU
+    // time on it (wall-clock time says nothing on a loaded machine), or when 30x that much wall time has passed
+    // (a blocked case burns no CPU).
+    let cpu: Vec<(AtomicU64, AtomicU64)> = (0..threads).map(|_| (AtomicU64::new(0), AtomicU64::new(0))).collect();
     let done = AtomicUsize::new(0);
     let merged = Arc::new(Mutex::new(Report::default()));
     let hang: Mutex<Option<String>> = Mutex::new(None);
@@ -196,7 +223,9 @@ where
             let done = &done;
             let merged = merged.clone();
             let case = &case;
+            let cpu = &cpu;
             s.spawn(move || {
+                cpu[t].0.store(unsafe { libc::pthread_self() } as u64, Ordering::SeqCst);
                 let mut rep = Report::default();
                 loop {
                     let start = next.fetch_add(chunk, Ordering::Relaxed);
@@ -206,6 +235,7 @@ where
                     let end = (start + chunk).min(total);
                     for i in start..end {
                         slots[t].0.store(i, Ordering::Relaxed);
+                        cpu[t].1.store(thread_cpu_ns(cpu[t].0.load(Ordering::SeqCst)), Ordering::SeqCst);
                         *slots[t].1.lock().unwrap() = Some(Instant::now());
                         case(i, &mut rep);
                         rep.evaluations += 1;
@@ -226,7 +256,15 @@ where
             for t in 0..threads {
                 let started = *slots[t].1.lock().unwrap();
                 if let Some(st) = started {
-                    if st.elapsed() > hang_after {
+                    let pt = cpu[t].0.load(Ordering::SeqCst);
+                    let burnt = if pt != 0 {
+                        Duration::from_nanos(thread_cpu_ns(pt).saturating_sub(cpu[t].1.load(Ordering::SeqCst)))
+                    } else {
+                        Duration::ZERO
+                    };
+                    // re-read: the worker may have moved on to the next case in between
+                    let same = *slots[t].1.lock().unwrap() == Some(st);
+                    if same && (burnt > hang_after || st.elapsed() > hang_after * 30) {
                         let idx = slots[t].0.load(Ordering::Relaxed);
                         let d = describe(idx);
                         *hang.lock().unwrap() = Some(d.clone());
